@@ -31,7 +31,7 @@ func init() {
 			{Name: "escaped", Stream: c17StreamEscaped, Eval: c17Eval},
 			{Name: "raw", Stream: c17StreamRaw, Eval: c17Eval},
 			{Name: "random", N: constN(20000, 400000), Gen: c17GenRandom, Eval: c17Eval},
-			{Name: "directive-params", N: func(string) int { return len(c17Templates) }, Gen: func(r *xrand.Rand, idx int, tier string) *fw.Case {
+			{Name: "directive-params", N: func(string) int { return 3 * len(c17Templates) }, Gen: func(r *xrand.Rand, idx int, tier string) *fw.Case {
 				return &fw.Case{Meta: map[string]string{"kind": "template"}, Ints: map[string]int{"t": idx}, Docs: []run.Doc{{}}}
 			}, Eval: c17EvalTemplate},
 		},
@@ -250,6 +250,7 @@ func c17Eval(t *fw.T, c *fw.Case) {
 		c.Docs[0] = run.Single([]byte(doc))
 		o := t.Exec(c.Docs[0])
 		c17ExpectValue(t, c, o, host, v, "escaped")
+		c17Reread(t, c, o, doc, host)
 		// bare spelling when no quotes are needed
 		if needsNoQuotes(v) {
 			bdoc, _ := c17Doc(host, v)
@@ -284,6 +285,7 @@ func c17Eval(t *fw.T, c *fw.Case) {
 				return
 			}
 			c17ExpectValue(t, c, o, host, val, "raw")
+			c17Reread(t, c, o, doc, host)
 		case "bad-escape":
 			t.Count("error_positions_checked")
 			at := off + 1 + pos
@@ -303,6 +305,23 @@ func c17Eval(t *fw.T, c *fw.Case) {
 			}
 			t.Distinct(host + " raw unterminated " + shapeOf(s))
 		}
+	}
+}
+
+// c17Reread: reading a value must not change what is written: the caller's bytes are the same after the call and a
+// second read of the very same file object gives the same value.
+func c17Reread(t *fw.T, c *fw.Case, first *run.Obs, doc, host string) {
+	if got := string(c.Docs[0].Files[c.Docs[0].Root]); got != doc {
+		t.Violation("source-bytes-modified:"+host, fmt.Sprintf("reading the document changed the caller's bytes:\n  before %q\n  after  %q", doc, got))
+		return
+	}
+	if c.Index%4 != 0 {
+		return
+	}
+	again := t.Exec(c.Docs[0])
+	t.Count("rereads_checked")
+	if again.Outcome != first.Outcome || string(again.JSON) != string(first.JSON) {
+		t.Violation("reread-differs:"+host, fmt.Sprintf("the same file read twice gives two results: first %s | second %s; input %q", describe(first), describe(again), doc))
 	}
 }
 
@@ -402,6 +421,13 @@ var c17Templates = [][2]string{
 
 func c17EvalTemplate(t *fw.T, c *fw.Case) {
 	tp := c17Templates[c.Ints["t"]%len(c17Templates)]
+	// each template also with something after it (a parameter at the very end of the input is a special case for a scanner)
+	switch c.Ints["t"] / len(c17Templates) {
+	case 1:
+		tp[0] += "GET /zz\n  200 any\n"
+	case 2:
+		tp[0] += "# comment\n\nTYPE @zz any\n"
+	}
 	bare := strings.Replace(tp[0], "%s", tp[1], 1)
 	quoted := strings.Replace(tp[0], "%s", "\""+tp[1]+"\"", 1)
 	db, dq := run.Single([]byte(bare)), run.Single([]byte(quoted))
